@@ -465,6 +465,41 @@ def inject_c12_overlay(scratch):
     open(cargo, "w").write(c2)
 
 
+def inject_c13_overlay(scratch):
+    """C13: harness module next to channels_per_key.rs (private constructor), environment models
+    for tokio mpsc / FnvHashMap swapped in under cfg(kani) ONLY (the native replay uses the real
+    ones), logging compiled out in the scratch copy's Cargo.toml."""
+    tsrc = os.path.join(scratch.repo, "tarpc", "src")
+    shutil.copy(os.path.join(VERIF, "overlay", "tarpc_overlay_c13.rs"), os.path.join(tsrc, "server", "limits", "verif_overlay_c13.rs"))
+    shutil.copy(os.path.join(VERIF, "overlay", "verif_env.rs"), os.path.join(tsrc, "verif_env.rs"))
+    shutil.copy(os.path.join(VERIF, "harness", "common", "nd.rs"), os.path.join(tsrc, "verif_nd.rs"))
+    f = os.path.join(tsrc, "server", "limits", "channels_per_key.rs")
+    c = open(f).read()
+    rep = [("use fnv::FnvHashMap;", "#[cfg(not(kani))]\nuse fnv::FnvHashMap;\n#[cfg(kani)]\nuse crate::verif_env::FnvHashMap;"),
+           ("use tokio::sync::mpsc;", "#[cfg(not(kani))]\nuse tokio::sync::mpsc;\n#[cfg(kani)]\nuse crate::verif_env::mpsc;"),
+           ("    collections::hash_map::Entry, convert::TryFrom,", "    convert::TryFrom,")]
+    for a, b in rep:
+        if a not in c:
+            raise Inconclusive("channels_per_key.rs: import %r not found, cannot swap the environment models in" % a)
+        c = c.replace(a, b, 1)
+    c = c.replace("use tracing::{debug, info, trace};", "use tracing::{debug, info, trace};\n#[cfg(not(kani))]\nuse std::collections::hash_map::Entry;\n#[cfg(kani)]\nuse crate::verif_env::Entry;", 1)
+    open(f, "w").write(c)
+    with open(os.path.join(tsrc, "server", "limits.rs"), "a") as fh:
+        fh.write("\n#[cfg(any(kani, verif_replay))]\n#[path = \"limits/verif_overlay_c13.rs\"]\nmod verif_overlay_c13;\n")
+    lib = os.path.join(tsrc, "lib.rs")
+    with open(lib, "a") as fh:
+        if "pub mod nd;" not in open(lib).read():
+            fh.write("\n#[cfg(any(kani, verif_replay))]\n#[allow(missing_docs, dead_code, unused_imports, unused_macros)]\n#[path = \"verif_nd.rs\"]\npub mod nd;\n")
+        fh.write("\n#[cfg(kani)]\n#[path = \"verif_env.rs\"]\npub(crate) mod verif_env;\n")
+    cargo = os.path.join(scratch.repo, "tarpc", "Cargo.toml")
+    cc = open(cargo).read()
+    c2 = re.sub(r'(tracing = \{ version = "0\.1", default-features = false, features = \[)', r'\1\n    "max_level_off",', cc, count=1)
+    if c2 == cc:
+        raise Inconclusive("could not add max_level_off to tarpc's tracing dependency in the scratch copy")
+    c2 = c2.replace("[dependencies]\n", "[dependencies]\nlog = { version = \"0.4\", features = [\"max_level_off\"] }\n", 1)
+    open(cargo, "w").write(c2)
+
+
 def inject_overlay(scratch):
     """Appends the overlay modules to the scratch copy of tarpc (never to /repo)."""
     tsrc = os.path.join(scratch.repo, "tarpc", "src")
